@@ -325,6 +325,8 @@ def run_k2t(chk, n_tus, cases_per_tu, scripts_per_case, size_range=(3, 9), cfg="
     stats = chk.cov.setdefault("k2t", {"programs": 0, "scripts": 0, "kinds": {}, "roots": {"value": 0, "error": 0, "done": 0, "none": 0},
                                        "with_stop": 0, "compile_failures": 0, "distinct_traces": 0, "events": 0})
     distinct = set()
+    # run every executable on its scripts; the model and the extracted monitor are run once on all lines
+    per_tu = []
     for (name, cfgn, p, _, _), cases in zip(jobs, tus):
         exe, err = built[(name, cfgn)]
         if err:
@@ -344,8 +346,15 @@ def run_k2t(chk, n_tus, cases_per_tu, scripts_per_case, size_range=(3, 9), cfg="
                 mlines.append("tcalc %d %s | %s" % (pre, to_model(e), sc))
                 meta.append((e, pre, sc))
         iout = vlib.run_impl_lines(exe, ilines, chunk=400)
-        mout = vlib.model_run(mlines)
-        vout = vlib.model_run(["tmon " + (io if not io.startswith("CRASH") else "") for io in iout])
+        per_tu.append((exe, ilines, mlines, meta, iout))
+    all_m = [l for t in per_tu for l in t[2]]
+    all_v = ["tmon " + (io if not io.startswith("CRASH") else "") for t in per_tu for io in t[4]]
+    both = vlib.model_run(all_m + all_v) if all_m else []
+    mall, vall = both[:len(all_m)], both[len(all_m):]
+    pos = 0
+    for exe, ilines, mlines, meta, iout in per_tu:
+        mout, vout = mall[pos:pos + len(ilines)], vall[pos:pos + len(ilines)]
+        pos += len(ilines)
         for (e, pre, sc), io, mo, vo, il in zip(meta, iout, mout, vout, ilines):
             stats["scripts"] += 1
             stopped = pre or "S" in sc.split()
